@@ -123,6 +123,10 @@ type Summary struct {
 	Hashes     []string              `json:"hashes"` // distinct non-trivial case hashes
 	Samples    []any                 `json:"samples"`
 	Exhaustive map[string]Exhaustive `json:"exhaustive,omitempty"`
+	// ExtraCases / ExtraDistinct count cases enumerated inside a journaled block (distinct by
+	// construction, too many to ship one hash each).
+	ExtraCases    int64 `json:"extra_cases,omitempty"`
+	ExtraDistinct int64 `json:"extra_distinct,omitempty"`
 }
 
 // Exhaustive describes a finite sub-space that a run enumerates completely.
@@ -145,6 +149,8 @@ type Reporter struct {
 	exh        map[string]Exhaustive
 	cur        int
 	viol       int
+	xCases     int64
+	xDistinct  int64
 }
 
 // NewReporter writes the record stream to path (created/truncated... appended when restart).
@@ -242,6 +248,15 @@ func (r *Reporter) ExhaustiveProgress(name string, size, done int) {
 	r.mu.Unlock()
 }
 
+// AddEnumerated counts cases executed inside the current journaled block: n executed, of
+// which d are non-trivial (and distinct by construction of the enumeration).
+func (r *Reporter) AddEnumerated(n, d int64) {
+	r.mu.Lock()
+	r.xCases += n
+	r.xDistinct += d
+	r.mu.Unlock()
+}
+
 // Finish emits the summary record.
 func (r *Reporter) Finish() {
 	r.mu.Lock()
@@ -250,7 +265,7 @@ func (r *Reporter) Finish() {
 		hs = append(hs, h)
 	}
 	sort.Strings(hs)
-	r.write(rec{K: "S", Sum: &Summary{Cases: r.cases, Counters: r.counters, Hashes: hs, Samples: r.samples, Exhaustive: r.exh}})
+	r.write(rec{K: "S", Sum: &Summary{Cases: r.cases, Counters: r.counters, Hashes: hs, Samples: r.samples, Exhaustive: r.exh, ExtraCases: r.xCases, ExtraDistinct: r.xDistinct}})
 	_ = r.f.Sync()
 	_ = r.f.Close()
 	r.mu.Unlock()
